@@ -353,9 +353,10 @@ def igAgg {V F : Type} (vo : VOps V F) (fo : FOps F) (isInt : Bool) (unit : Int)
             let w := linearF fo s.wend qt p.t qv pv
             let el := fo.div (fo.ofInt (s.wend - qt)) (fo.ofInt unit)
             let sum := fo.add s.sum (fo.mul (fo.mul fo.half (fo.add w qv)) el)
-            -- float: prev.Value = value(interpolated), prev.Time = window.end, the new point keeps p.Value
-            -- integer: `value` itself is overwritten by the interpolated value, prev.Value stays
-            if isInt then (sum, s.wend, qv, w) else (sum, s.wend, w, pv)
+            -- prev.Time = window.end, the previous value becomes the interpolated one
+            -- (float: `r.prev.Value = value`; integer, after fixes/C23-integer-integral-window.patch:
+            -- `prevValue = interp`), the new point keeps p.Value
+            (sum, s.wend, w, pv)
           else (s.sum, qt, qv, pv)
         let s1 := { s with pending := some ⟨s.wstart, r1.1⟩ }
         let s2 := igSetWindow o s1 p.t
